@@ -55,6 +55,8 @@ A_CORE = ["the executable step rule (internal/sm/refstep.go), written from READM
           "candidate bindings for a branch come from the real matcher (covered by C01-C03)",
           "error message texts are opaque tokens; traces are not compared"]
 reg("C04", "./checks/core", "^TestC04", assumptions=A_CORE)
+reg("C05", "./checks/core", "^TestC05", assumptions=A_CORE)
+reg("C06", "./checks/core", "^TestC06", assumptions=A_CORE[2:] + ["native actions never mutate nested values in place (actions are documented as side-effect free)"])
 reg("C18", "./checks/core", "^TestC18", assumptions=A_CORE + ["an action that returns null gets empty bindings; whether permanent bindings survive that is not judged"])
 
 
